@@ -79,6 +79,14 @@ class Scenario:
                 log.add("time", now=t)
         elif c == "w":
             log.add("time", now=loop.advance(1))
+        elif c == "P":
+            # one poll: let the clock reach the next timer, then run until nothing is ready
+            if loop.quiescent() and loop.next_timer() is not None and loop.next_timer() > loop.time():
+                log.add("time", now=loop.advance())
+            for _ in range(50):
+                if not (loop.live_ready() or loop.due()):
+                    break
+                loop.step()
         elif c == "W":
             chunk = self.cfg["chunks"][arg]
             log.add("write", k=arg, data=list(chunk))
@@ -191,12 +199,17 @@ def main():
     ap.add_argument("--limit", type=int, default=400)
     ap.add_argument("--random", type=int, default=200)
     ap.add_argument("--maxlen", type=int, default=16)
+    ap.add_argument("--explicit", default=None)     # JSON file: list of [cfg, schedule] to run as given
     a = ap.parse_args()
     if a.mutant:
         import mutants
         mutants.apply(a.mutant)
     rng = random.Random(a.seed)
     runs = []
+    if a.explicit:
+        with open(a.explicit) as f:
+            for cfg, sched in json.load(f):
+                runs.append(run(cfg, sched, drain_polls=4))
     for cfg in json.loads(a.cfgs):
         al = ["S", "T", "s", "d", "a"] if cfg.get("cons", "future") != "sync" else ["S", "T", "s", "a"]
         scheds = enumerate_schedules(cfg, al, a.depth, a.limit)
